@@ -155,6 +155,60 @@ CHECKS["C19"] = dict(level="exploration", technique="TLC-generated training sets
     text="Training sets in 1D/2D/3D (all small subsets of 0..5(7), the 3x3 grid and the unit cube, full grids up to 40 points, translated / anisotropic sets, repeated points, collinear / coplanar sets, too few points) with affine, quadratic and pulse integer values, nugget 0 and 1/4, through Kriging<N>, Kriging1D/2D/3D, KrigedFunction<N>, FactorizedKriging<1,1> and FactorizedKriging1D1D; TLC judges: a regular set builds, insufficient data throws, a built interpolant without nugget returns every training value (1e-9 relative), singular sets throw or still reproduce (never garbage), affine data is reproduced EXACTLY at half-integer probes inside and outside the hull (with or without nugget), nugget residuals sum to zero and are not null on non-affine data, wrappers equal the template on coordinates normalised to [0,1], KrigedFunction is bitwise the template.",
     note="3910 sets quick / 8090 thorough, 2..40 points. Tolerance fixed a priori (observed errors <= 1e-11 relative). FactorizedKriging has no mathematical relation to Kriging<2>; it is judged by the same obligations plus exactness on its drift span (1, x1, x2; wrapper: 1, x2). FactorizedKriging1D2D/1D3D, non-default covariance models and off-grid random point sets are not covered.",
     ref="8/C19")
+CHECKS["C37"] = dict(level="exploration", technique="TLC-enumerated material-property definitions (MPValue.tla) rendered to .mfront, generated by the current mfront for c / c++ / generic, compiled and called; exact rational oracle judged by TLC",
+    text="TLC enumerates definitions of a DSL subset (0..3 inputs in non-alphabetical order, 0..2 parameters with defaults / external names / parameters file, @Constant and @StaticVariable, res or @Output, bounds that never trigger, decimal and exponent literals, values needing 7-11 digits, expression trees over + - * / pow with 0-2 local variables, @Data tables linear / cubic spline x 5 extrapolation options) and the evaluations (dyadic input lattice, setter calls, run with / without <law>-parameters.txt); every generated entry point is called and TLC judges exact equality with the declared law for the parameters each interface must see, setter return codes, generic status and agreement across interfaces (4 ulp).",
+    note="Covered: c, c++, generic interfaces; 148 definitions / 12k evaluations quick, 931 / 110k thorough; asymmetric bodies make any permutation of inputs or parameters visible. Not covered: python/castem/other interfaces (not built here), the repository's own property files (irrational laws have no exact oracle), more than 3 inputs, @Data with non-integer nodes, malformed parameter files.",
+    ref="8/C37")
+CHECKS["C20"] = dict(level="exploration", technique="TLC-enumerated expression programs over a unit lattice (Quantity.tla: typing rules on exponent vectors + exact rational values), rendered syntactically to C++ and decided by requires-expressions in one compilation per chunk, judged by TLC",
+    text="The unit group (7 rational exponents), the typing rules of + - comparisons = += -= *= /= initialisation * / power<N,D> square_root abs and the exact value of every program are written in TLA+ (group laws and the SI relations of the 22 named units are TLC-checked theorems). "
+         "TLC enumerates every program of depth 1 over 10 (22) variable types and of depth 2 over 5 (8) types (4.8k quick / 55k thorough programs, incl. qt_ref/const_qt_ref views); each is compiled against the real headers inside a requires-expression. "
+         "TLC judges acceptance/rejection, the exponents of decltype(result), the value (EXACT) and bitwise equality with the same text instantiated on doubles; a sample is compiled stand-alone to bind requires-expressions to real compiler verdicts.",
+    note="g++ 12 / C++20, base type double, lvalue operands, canonical spellings of unit types. Rejection of well-dimensioned programs over views (qt_ref = qt_ref, const_qt_ref<NoUnit> -> double) and over non-canonical spellings (Unit<0,1,...> vs Length for + < ==) is reported as notes, not violations.", ref="8/C20")
+CHECKS["C21"] = dict(level="exploration", technique="TLC-generated rational lattices of elastic constants + exact rational oracle (Moduli.tla) judged by TLC",
+    text="Conversions (E,nu)/(lambda,mu)/(K,G), the isotropic and orthotropic 3D tensors (compliance inverted through an integer scaling) and their reduction to each of the 7 modelling hypotheses are exact rationals in TLA+. Plane stress is the inverse of the in-plane compliance; PIPE exchanges axes 2 and 3 in the plane hypotheses; PLATE equals DEFAULT. "
+         "TLC proves round trips, SPD (Sylvester), isotropic = orthotropic special case and the E/(1-nu^2) plane-stress form on the lattice. "
+         "The harness calls the 9 conversions, computeLambda/Mu, computeIsotropicStiffnessTensor(moduli), computeKGModuli, isIsotropic (with two non-isotropic controls), the <H,smt> isotropic tensors via StiffnessTensor.hxx, Lame.hxx and ComputeAlteredStiffnessTensor, and computeOrthotropicStiffnessTensor<H,smt,conv> (NaN pre-filled outputs), at 2^0 and 2^37 stress scales; TLC compares EXACT integers.",
+    note="Base type double only (no qt<Stress>); lattices of 30-60 isotropic and 15-49 orthotropic constant sets. The ALTERED tensor of AxisymmetricalGeneralisedPlaneStress is specified as condensation of the axial component zz (docs); the tree condenses tt: open known finding.", ref="8/C21")
+CHECKS["C26"] = dict(level="exploration", technique="decision table in TLA+ (Langevin.tla) judging integer/boolean abstractions of residuals measured in long double on a TLC-generated lattice",
+    text="TLC generates y = k/16 (k/64), +-2^-k, +-(1-2^-k), 0 and the Bergstrom-Boyce branch-point neighbourhood for the 5 entry points. The harness reports sign, oddness (4 ulp), floor(-log2) of |L(f(y))-y| (absolute, relative to y, relative to 1-|y|), the AndDerivative value (4 ulp) and derivative against a long-double central difference, the KUHN_GRUN=MORCH alias, and ranks of f over the sorted lattice. "
+         "TLC applies the table: identity at lattice resolution (2^-4), relative error < 1/2 near 0 and near the pole for the approximations that have the pole, residual <= 2|y|^21 for the order-19 Taylor expansion, odd, increasing, derivative.",
+    note="The repository documents no numeric accuracy; the bounds are the weakest reading and are recorded as such. Sampled function graph only.", ref="8/C26")
+CHECKS["C28"] = dict(level="exploration", technique="TLC-enumerated tables and axis permutations (Hypotheses.tla) replayed on ModellingHypothesis / OrthotropicAxesConvention / Hill / StiffnessTensor and judged by TLC",
+    text="The seven hypotheses (names, upper-case names, both round trips, isModellingHypothesis, space dimension, stensor / tensor sizes through the run-time functions, the metafunctions and the sizes of the math objects, the list, the undefined enumerator) and 87 non-names derived from the names are enumerated by TLC. The PIPE / PLATE / DEFAULT conventions are modelled as an axis permutation lifted to stensor components, derived in the spec from the documented axis order. For the 18 documented (hypothesis, convention) pairs TLC enumerates diagonal expansions, Hill coefficients and orthotropic materials constructed from integer SPD stiffness blocks (engineering constants derived exactly by adjugate / determinant). The harness calls convertStressFreeExpansionStrain, computeHillTensor / makeHillTensor, computeOrthotropicStiffnessTensor (UNALTERED everywhere, ALTERED in plane stress). TLC judges 'reduced tensor = permuted restriction of the 3D one', plus equality of the Hill quadratic form on probe stress states embedded in 3D.",
+    note="The driver probes whether the PLATE stiffness call compiles; on a tree where it does not, those cases are reported unavailable and rejected (this is how the now-repaired defect was found). Not covered: ALTERED stiffness in AxisymmetricalGeneralisedPlaneStress (belongs to C21), Barlat / linear-transformation helpers, whether mfront refuses PLATE in axisymmetric hypotheses.", ref="8/C28")
+CHECKS["C45"] = dict(level="exploration", technique="TLC-enumerated declaration lattice rendered to .mfront text by the specification (Metadata.tla), generated by the current mfront, compiled, read back through ExternalLibraryManager and mfront-query, judged by TLC",
+    text="Declarations = category (behaviour: material property / state / auxiliary state / external state variable / parameter; material law: inputs, output, parameters; model: outputs, inputs, parameters) x type (scalar aliases, Stensor, StrainStensor, Tensor, TVector) x array size 1..2 x naming (none, entry name, glossary entry without / with lower / with two-sided SI physical bounds) x every (bounds, physical bounds) pair mfront accepts. File data: material, author, date, unit system present or absent, 6 sets of modelling hypotheses, one hypothesis-specific variable. The spec derives the external / expanded names, type ids, bounds, effective physical bounds (declared, else inherited from the glossary when a unit system is declared), parameter defaults and supported hypotheses. The harness queries ELM per entry point and per hypothesis (names, types, has / lower / upper (physical) bounds of every expected and every listed name, defaults, general symbols). The driver parses mfront-query output (lists, bounds, physical bounds, scalar defaults, author / date / material, hypotheses). setParameter on generic material properties is compared with twin laws compiled with the new default. Quick: 7 behaviours, 5 laws, 1 model, 312 declarations. Thorough: 30 behaviours, 7 laws, 2 models, 1023 declarations.",
+    note="Generic interfaces only. Behaviours' setParameter is not executed (only exported defaults are read). mfront-query has no per-element query for arrays of parameters. Models exported through the generic interface are read as behaviours (mkt, unit system not judged). Output bounds of material laws and the repository corpus are not covered. Values are multiples of 1/4.", ref="8/C45")
+CHECKS["C31"] = dict(level="exploration", technique="TLC-constructed token streams with expected tokens known by construction (Tokenizer.tla) + byte-level families, replayed on CxxTokenizer and judged by TLC",
+    text="106 lexemes: identifiers incl. R / u8; decimal, octal, hexadecimal, binary and floating literals with exponents, suffixes and digit separators; strings with escapes and comment characters; characters; 8 punctuators; 36 operators; line / C / doxygen / backward-doxygen / two-line comments; 5 directives. They are composed with layout (nothing where the adjacency rules allow it, blanks, tabs, newlines): every lexeme x 6 layouts x 3 options, every ordered pair with the admissible separations, every triple over a reduced alphabet (quick 16.8k streams; thorough ~130k). TLC computes the expected token values, flags, lines, offsets (options default, keepCommentBoundaries, charAsString), the list after stripComments and the value of every numeric literal, and judges the observed tokens. Robustness: all strings <= 5 (6) over a 12-symbol adversarial alphabet x 3 options, and delete / insert / replace mutations of three .mfront and three .mtest files must end with tokens ordered by (line, offset) or an exception.",
+    note="Adjacency is generated only where the spec's Glue rules allow it (no sign directly before a digit, no identifier directly before a quote, no '~'). A doxygen comment opening the input, trailing blanks in comments, mergeStrings, extractNumbers(false), dot / plus / minus as separators, additional separators and multi-line raw strings are not generated. Out-of-bounds reads that do not crash are invisible (no sanitizer build). Numeric values are computed in the harness with strtoll / strtod.", ref="8/C31")
+CHECKS["C03"] = dict(level="exploration", technique="TLC-generated tensors constructed from known exact decompositions (Spectral.tla) x 8 solvers x orderings; LOGERR-abstracted observations judged by TLC",
+    text="Tensors M diag(l) M^T are built in the specification from integer spectra (all of {-1,0,1,2}^3, thorough -2..3; 1/2^10/2^20 separated; nearly repeated at 2^-20..2^-26) and exact rational rotations (cube, (3,4,5)/5, (5,12,13)/13, quaternion n=3,7, products to n=125), N=1,2,3, scales 2^+-100 (2^+-300 for the scale-free paths), refine flag. TLC checks the construction (orthogonality, A n = vp n, characteristic polynomial). The harness runs computeEigenValues / computeEigenVectors / computeEigenTensors and reports error exponents. TLC judges multiset and order of values per n and ordering, residual, orthonormality, reconstruction, eigenspace of each cluster (any basis allowed), eigen tensors, and the 1D/2D conventions.",
+    note="Tolerances: documented benchmark accuracy per solver (release notes 3.1/5.0) + 3 bits; on ill-conditioned spectra closed-form solvers get eps/gap and C10's eps^(1/m) caps (2^-20 / 2^-13), Cuppen eps/gap, Jacobi/QL/QR the documented accuracy everywhere - an assumption, since the docs only quantify random tensors. det=-1 accepted (statement says orthonormal). At 2^+-300 only TFEL/Jacobi/GteQR/2D/1D are judged; the others are counted in the evidence. double only; lattice tensors only. Open known finding: FSES analytical eigenvectors on nearly repeated spectra.", ref="8/C03")
+CHECKS["C05"] = dict(level="exploration", technique="TLC-computed exact integer values of f(s) and Df(s)[D] on the C03 lattice (IsoFunction.tla), deviations abstracted to exponents and judged by TLC",
+    text="For f in {x, 2x+3, x^2, x^3} TLC computes f(s) and the directional derivative for every unit direction as matrix polynomials, and proves on the lattice that they equal sum f(vp_i)N_i and the Daleckii-Krein formula. Replayed through the static API with the exact decomposition (functor and value overloads, scales 2^+-20), the member functions and computeIsotropicFunctionAndDerivative with 3 solvers and two eps; exactly repeated eigenvalues; nearly coincident ones with eps = gap/2, gap, 2 gap; major symmetry. exp/log and the derivatives of the positive/negative parts against a long-double reference in the harness. absolute_value, positive_part, negative_part, square_root, logarithm, pos+neg=s, dpos+dneg=Id, and the PositivePartAndDerivative variant.",
+    note="Tolerance 2^-44 for the static API, C03 solver tolerance + 6 bits through a solver, 8 eps/norm when two distinct eigenvalues lie within eps (only with the third eigenvalue far away). Not covered: zero-eigenvalue derivative convention of the positive part, PSD boundary of square_root (NaN observed), float/long double, solvers other than TFEL/Jacobi/GteQR.", ref="8/C05")
+CHECKS["C02"] = dict(level="exploration", technique="TLC-generated lattices + exact integer index-notation oracle (Mat3.tla, Tens4.tla) judged by TLC",
+    text="Unsymmetric tensors (all of -2..2 in 1D, -1..1 in 2D, {0,1}^9 u {-1,1}^9 in 3D; thorough: -1..1 in 3D, -2..2 in 2D; probes rescaled by 2^+-40, 2^+-300), "
+         "(basis+probes)^2 for bilinear operations, all integer quaternions over -1..1 (thorough -2..2) + 24 cube rotations, F=R.U from integer quaternions/stretches, "
+         "every elementary st2tost2/t2tot2/t2tost2/st2tot2 against dense generic ones (thorough; sampled in quick), projectors, derivative constructions, "
+         "change of basis / push-forward / pull-back / inverse of fourth-order tensors, N=1,2,3, are replayed through the real headers; TLC compares every "
+         "exactly rescaled result with the integer value of the index-notation definition on the full 3x3 / 3x3x3x3 representation.",
+    note="Covered: trace, det, transpose, invert, syme/unsyme, C, B, E_GL, d det/dF, products (tensor, stensor, mixed), |, ^ (4 kinds), push_forward, PK1/PK2 conversions, "
+         "change_basis (tensor, st2tost2, t2tot2, t2tost2), fromRotationMatrix, polar_decomposition (tol 1e-7), Id/IxI/J/K/M, transpose_derivative, tpld/tprd (+chain forms), "
+         "dCdF/dBdF, dsquare, stpd (header meaning), computePushForwardDerivative, all 8 fourth-order products and 8 applications, conversions between the storage classes, "
+         "get/setComponent, invert(st2tost2). Fourth-order operands are a spanning set, not a lattice. Not covered: computeDeterminantSecondDerivative (C06), "
+         "velocity-gradient / spin-rate derivatives, convertToTangentModuli family, float / qt value types.", ref="8/C02")
+CHECKS["C17"] = dict(level="exploration", technique="TLC-enumerated programs (view layouts, expression trees, aliasing patterns) -> generated C++ using the real expression templates -> final memory judged by TLC against the naive element-wise loop (ArrayViews.tla)",
+    text="(a) every constructor of a catalogue of views with all its compile-time parameters (strided vector / row-major matrix policies, slice, map<T,offset>(tvector), "
+         "row/column/sub-matrix views of tmatrix<3,4>, map_strided, coalesced views with scattered pointers, map_derivative with compile-time and run-time indices, "
+         "map_derivative_strided, views arrays): read through the view and write 1001.. through it on a sentinel buffer; (b) expression trees of depth <= 3 over "
+         "+ - unary- scalar* *scalar /2 with = += -= *= /= for 23 configurations of owned / contiguous / strided / coalesced operands of tvector, tmatrix, stensor, tensor, "
+         "vector (+ fsarray, runtime_array, matrix for the compound assignments), 8 offset patterns (disjoint, exact alias, shifts by +-1, +-2); (c) matrix.vector, matrix.matrix, dot "
+         "products through views. 6 982 programs / 1 518 generated functions (quick), 24 860 / 4 894 (thorough); TLC compares the whole final buffer exactly.",
+    note="Aliasing semantics = naive ascending row-major loop (equal to eager evaluation for exact aliasing; shifted overlapping views follow the loop). "
+         "Not covered: qt / float / integer value types, run-time sized views (map<vector>(n, p)), products with aliasing destination, ViewsArray beyond stensor<1>, "
+         "out-of-range writes farther than the 64-cell guard zones.", ref="8/C17")
 CHECKS["C39"] = dict(level="model_checking", technique="decode table of K[0] and return convention in TLA+ judged by TLC on calls of a generated probe behaviour + TLC model checking of the entry-point stages",
     text="A probe behaviour with distinguishable operators (1,2,3 x Id predictions; 10..40 x Id tangents) and a run-time selectable failure "
          "stage is generated by the current mfront (small strain, GreenLagrange and Hencky variants) and called through the real generic "
